@@ -127,6 +127,11 @@ Section Curve.
   (* EccKey.dh(public_key_x, public_key_y) *)
   Definition ecc_dh (d : Z) (xb yb : list Z) : ecdh_result := ecdh d (be_int xb) (be_int yb).
 
+  (* An EccKey object used for a sequence of dh() calls: the object holds nothing but the
+     private scalar, so the k-th result depends on the k-th peer key only. *)
+  Definition ecc_dh_history (d : Z) (calls : list (list Z * list Z)) : list ecdh_result :=
+    map (fun xy => ecc_dh d (fst xy) (snd xy)) calls.
+
   (* (EccKey.x, EccKey.y): an infinite _Point carries x = y = 0 *)
   Definition ecc_public (d : Z) : option (list Z * list Z) :=
     match public_key d with
